@@ -787,7 +787,10 @@ pub fn match_pool() -> Vec<(u8, Vec<Vec<u8>>)> {
         (12, vec![b"alpha".to_vec(), b"printer".to_vec()]),
         (60, vec![b"x".to_vec(), b"erbium-test".to_vec()]),
         (77, vec![b"alpha".to_vec()]),
-        (23, vec![vec![64], vec![1]]),
+        // values whose encoding ends in zero octets included: they are values like any other
+        (23, vec![vec![64], vec![1], vec![0]]),
+        (37, vec![vec![5, 0], vec![0, 64], vec![0, 0]]),
+        (28, vec![vec![10, 1, 0, 0], vec![10, 1, 0, 255]]),
         (61, vec![MACS[0].to_vec(), MACS[3].to_vec()]),
     ]
 }
@@ -856,6 +859,8 @@ pub fn gen_policy(r: &mut Rng, w: &World, g: &GenCfg, depth: u32, server_net: Op
                 let b = r.pick(&vals).clone();
                 Some(match opt_by_code(code).unwrap().2 {
                     Ty::U8 => Val::U8(b[0]),
+                    Ty::U16 => Val::U16(u16::from_be_bytes([b[0], b[1]])),
+                    Ty::Ip => Val::Ip(u32::from_be_bytes([b[0], b[1], b[2], b[3]])),
                     _ => Val::Bytes(b),
                 })
             };
